@@ -191,12 +191,13 @@ def mkDef (f : Fun) (S : FS) : Var × FS :=
   | some d => (d.res, S)
   | none => (S.next, { next := S.next + 1, defs := S.defs ++ [⟨S.next, .none, f⟩], B := setB S.B S.next (resBnd S.B f) })
 
-/-- `Convert2Var(affine expression)` after `sort_terms` -/
+/-- `Convert2Var(affine expression)`: the terms stay in flattening order, unmerged (`is_variable` / `is_constant` and the
+expression-map key of the LinearFunctionalConstraint see the raw terms) -/
 def aff2varL (l : Lin) (c0 : Rat) (S : FS) : Var × FS :=
   match l with
   | [(c, v)] => if c = 1 ∧ c0 = 0 then (v, S) else mkDef (.affine [(c, v)] c0) S
   | l => mkDef (.affine l c0) S
-def aff2var (p : Lin × Rat) (S : FS) : Var × FS := aff2varL (normLin p.1) p.2 S
+def aff2var (p : Lin × Rat) (S : FS) : Var × FS := aff2varL p.1 p.2 S
 
 /-- `PreprocessConstraint(ConditionalConstraint)`: a body whose first coefficient (after sorting) is negative is negated
 together with the comparison (`IsNormalized` / `negate`); for `==` only the terms and the right-hand side are negated -/
@@ -211,6 +212,9 @@ the first coefficient: of the re-sorted terms in that case, of the terms in flat
 def needsSort : Lin → Bool
   | [] => false
   | (c, v) :: t => c == 0 || t.any (fun p => p.2 == v) || needsSort t
+
+/-- body of a comparison after `lhs.sort_terms()` -/
+def condBody (raw : Lin) : Lin := if needsSort raw then normLin raw else raw
 
 def leadNeg (raw : Lin) : Bool :=
   match (if needsSort raw then normLin raw else raw) with
@@ -264,7 +268,7 @@ def flatL : LE → FS → Var × FS
   | .cmp k a b, S =>
     let r1 := flatN a S
     let r2 := flatN b r1.2
-    mkDef (normCmp (leadNeg (r1.1.1 ++ negLin r2.1.1)) k (normLin (r1.1.1 ++ negLin r2.1.1)) (r2.1.2 - r1.1.2)) r2.2
+    mkDef (normCmp (leadNeg (r1.1.1 ++ negLin r2.1.1)) k (condBody (r1.1.1 ++ negLin r2.1.1)) (r2.1.2 - r1.1.2)) r2.2
   | .and ls, S =>
     let r1 := flatLs ls S
     mkDef (.and r1.1) r1.2
@@ -487,7 +491,7 @@ def shortcutDef (B : Bnds) (defs : List Def) (d : Def) : Bool :=
 
 /-- further paths of the real converter not mirrored yet (see design notes, round 5): downward bound propagation from logical rows
 (`FixAsTrue` + `PropagateResult` through not/and/or, removal of a fixed-true `and`), the unary-encoding treatment of `var == const`
-(`ConvertMaps`), results whose created bounds are a point (`MakeFixedVar` instead of a definition), single-term algebraic rows -/
+(`ConvertMaps`), results whose created bounds are a point (`MakeFixedVar` instead of a definition) -/
 def ConvOut.shortcut2 (o : ConvOut) (linear : Bool) : Bool :=
   (linear && !o.fixTrue.isEmpty) ||
   o.fixTrue.any (fun v => match defOf o.defs v with
@@ -495,8 +499,7 @@ def ConvOut.shortcut2 (o : ConvOut) (linear : Bool) : Bool :=
   o.defs.any (fun d => match d.f with
     | .condLin .eq [(_, v)] _ => (o.B v).isInt
     | .affine [] _ => false
-    | f => (resBnd o.B f).isFixed) ||
-  o.roots.any (fun r => decide (r.body.length ≤ 1) && !(r.lb == some 1 && r.ub == none))
+    | f => (resBnd o.B f).isFixed)
 
 def ConvOut.shortcut (o : ConvOut) (linear : Bool := false) : Bool :=
   o.defs.any (shortcutDef o.B o.defs) || o.blocks.any (·.unmodelled) || o.shortcut2 linear
@@ -524,6 +527,15 @@ def typedDef (B : Bnds) (d : Def) : Bool :=
    | .ifthen c _ _ => isBin01 (B c)
    | _ => true)
 
+/-- extra conditions of the linear acceptance set: max/min non-empty; comparisons with non-empty integer-typed bodies and an
+integer right-hand side (then the `ComparisonEps = 1` reformulation is exact) -/
+def linDefOK (B : Bnds) (d : Def) : Bool :=
+  match d.f with
+  | .max as => !as.isEmpty
+  | .min as => !as.isEmpty
+  | .condLin _ body rhs => !body.isEmpty && (linBnd B body).2.2 && isIntQ rhs
+  | _ => true
+
 def finiteRoot (r : Root) : Bool :=
   (match r.lb with | some l => decide (-pracInf < l) | none => true) &&
   (match r.ub with | some u => decide (u < pracInf) | none => true)
@@ -539,6 +551,16 @@ def ConvOut.checks (m : NLModel) (o : ConvOut) : Bool :=
   (match o.obj with
    | some ob => ob.lin.all (fun p => decide (p.2 < o.N)) && ob.quad.isEmpty && (objGaps o.B o.defs ob).isEmpty
    | none => true)
+
+/-- additional checks for the linear acceptance set: no gadget refused (all big-M constants finite), `cvt:bigM` unset,
+comparisons integer, max/min non-empty, and the rows a gadget emitted mention only original/result variables and the block's
+own auxiliary variables -/
+def Block.localRows (N : Nat) (b : Block) : Bool :=
+  b.raw.all fun c => c.vars.all fun v => decide (v < N) || (decide (b.lo ≤ v) && decide (v < b.lo + b.vars.length))
+
+def ConvOut.checksLin (o : ConvOut) (cfg : Cfg) : Bool :=
+  decide (cfg.opts.bigM ≤ 0) && o.blocks.all (fun b => b.refusal.isNone && b.localRows o.N) &&
+  o.defs.all (linDefOK o.B)
 
 /-- syntactic part of the fragment: every variable leaf is a variable of the model -/
 def NLModel.vok (m : NLModel) : Bool :=
